@@ -32,10 +32,10 @@ import (
 const inlineValueBuffer = 256 // only used for the distinct_nontrivial accounting (growth exercised)
 
 type poolWorld struct {
-	a, b   *pool.Message
-	ma, mb model
-	usedA  int
-	usedB  int
+	a, b    *pool.Message
+	ma, mb  model
+	usedA   int
+	usedB   int
 	flag    bool
 	refused bool
 	obs     *observations
@@ -370,7 +370,7 @@ func (w *poolWorld) queryBuilder(sc *scratch, rep *reporter) {
 		} else if err != nil || !bytes.Equal(b, vals[0]) {
 			rep.add("GetBytes/wrong", "Message.ETag() = (%s,%v), first value is %s", fmtVal(b), err, fmtVal(vals[0]))
 		}
-		r := sc.b[:len(vals)+1 : len(vals)+1]
+		r := sc.b[: len(vals)+1 : len(vals)+1]
 		var n int
 		if p := safe(func() { n, err = a.ETags(r) }); p != nil {
 			rep.add("GetBytess/panic", "Message.ETags() panicked: %v", p)
